@@ -31,6 +31,9 @@ FILLERS = [
     "{X} -> a <under b",
     # one magic construct nested inside another (the line-start handling is switched off and on again around each)
     "{{{{t|see [[{X}]]}}}}", "{{{{t|k={{{{u|{X}}}}}}}}}", "[[a|{{{{u}}}} {X}]]",
+    # a <pre> that opens on the line and continues on the next one (on an item line the item ends at the line break and
+    # the end tag arrives with no <pre> open)
+    "<pre>{X}\n{Y}</pre>",
 ]
 TAG_RE = re.compile(r"[HITU]\d+")
 
